@@ -312,11 +312,11 @@ func c15Check(c c15Case) *Violation {
 	}
 	input := c15Record(c)
 	seqBytes := idBytes(0, c.L)
-	env := newCliEnv().withStdin(mod(c.Sin, 3))
+	env := newCliEnv().withStdin(mod(c.Sin, 4))
 	defer env.remove()
 	what := fmt.Sprintf("gts %s %v (L=%d circ=%v flag=%v fasta=%v)", c.Cmd, c.Locators, c.L, c.Circ, c.Flag, c.Fasta)
 	if c.Sin != 0 {
-		what += " stdin=" + []string{"pipe", "file", "file-at-offset"}[mod(c.Sin, 3)]
+		what += " stdin=" + []string{"pipe", "file", "file-at-offset", "terminal+path"}[mod(c.Sin, 4)]
 	}
 	if len(c.Pre)+len(c.Post) > 0 {
 		if v := c15Mixed(c, env, what, input); v != nil {
@@ -862,8 +862,11 @@ func c15Classify(c c15Case) (bool, []string) {
 	if len(c.Pre)+len(c.Post) > 0 {
 		labels = append(labels, "mixed-stream")
 	}
-	if c.Sin != 0 {
+	if c.Sin != 0 && mod(c.Sin, 4) != 3 {
 		labels = append(labels, "stdin-regular-file")
+	}
+	if mod(c.Sin, 4) == 3 {
+		labels = append(labels, "stdin-terminal-input-by-path")
 	}
 	if c.InPlace {
 		labels = append(labels, "in-place")
@@ -920,7 +923,7 @@ func c15Gen(t *rapid.T) c15Case {
 		c.Guests = rapid.SampledFrom([]int{0, 0, 1, 2, 3}).Draw(t, "guests")
 		c.InPlace = rapid.IntRange(0, 4).Draw(t, "inplace") == 0
 	}
-	c.Sin = rapid.SampledFrom([]int{0, 0, 0, 0, 1, 2}).Draw(t, "sin")
+	c.Sin = rapid.SampledFrom([]int{0, 0, 0, 0, 1, 2, 3}).Draw(t, "sin")
 	c.Long = rapid.IntRange(0, 2).Draw(t, "long") == 0
 	if rapid.IntRange(0, 3).Draw(t, "mixed") == 0 {
 		c.Pre = rapid.SliceOfN(rapid.IntRange(0, 4), 0, 2).Draw(t, "pre")
